@@ -659,4 +659,45 @@ def run(chk):
     if not (set(calls) & {"round", "lround", "llround", "nearbyint", "rint"}) or casts or (set(calls) & {"floor", "trunc", "ceil"}):
         chk.violation(r_mo, "rhs", "evalComparison converts the numeric right-hand side of a MNTH comparison with `%s`: that is not rounding to the nearest integer, so MNTH = 10.8 holds in October instead of November (and every ordering comparison shifts by one month for fractions >= .5)" % txt, ec["file"], ln)
 
+    # ---- C18.wellcmp: a comparison of a well quantity
+    r_wc = chk.rule("C18.wellcmp", "ActionValue.cpp: Value::add_well records the (well, value) pair; eval_cmp compares a scalar as scalarComparisonHolds(this value, op, right-hand scalar) - left and right not exchanged - and hands a well quantity to evalWellComparisons, which visits every recorded pair, keeps the WELL NAME OF THE PAIR whose value satisfies the comparison, and returns the condition true exactly when that list is not empty, with the list as matching wells", floor=3)
+    vx18 = chk.facts(["opm/input/eclipse/Schedule/Action/ActionValue.cpp"])
+
+    def one18(nm):
+        c = [f for f in vx18.fns if f["n"] == nm and f.get("body") and (f.get("cls") or "").endswith("Action::Value")]
+        if len(c) != 1:
+            raise core.AnalysisBroken("Action::Value::%s: %d definitions" % (nm, len(c)))
+        return c[0]
+    aw = one18("add_well")
+    wn, wv = [p_["n"] for p_ in aw["params"]]
+    adds = [show(x) for x in walk(aw["body"]) if x["k"] == "MCall" and x.get("m") in ("emplace_back", "push_back") and "well_values_" in show(x.get("obj"))]
+    chk.instance(r_wc, "add_well", sample=dict(appends=adds))
+    if adds != ["this.well_values_.emplace_back(%s, %s)" % (wn, wv)] and adds != ["this.well_values_.push_back({%s, %s})" % (wn, wv)]:
+        chk.violation(r_wc, "add_well", "Value::add_well does %s; it records the pair (well, value) - otherwise the comparison runs over fewer wells than the condition names" % adds, aw["file"], aw["l"])
+    ec = one18("eval_cmp")
+    opn, rhn = [p_["n"] for p_ in ec["params"]]
+    etxt = show(ec["body"]).replace("Opm::Action::(anonymous namespace)::", "").replace("(anonymous namespace)::", "")
+    ok_s = "scalarComparisonHolds(this.scalar(), %s, %s.scalar())" % (opn, rhn) in etxt
+    ok_w = "return this.evalWellComparisons(%s, %s.scalar());" % (opn, rhn) in etxt
+    chk.instance(r_wc, "eval_cmp", sample=dict(scalar_form=ok_s, well_form=ok_w))
+    if not (ok_s and ok_w):
+        chk.violation(r_wc, "eval_cmp", "Value::eval_cmp no longer evaluates scalarComparisonHolds(this value, op, rhs) for scalars and evalWellComparisons(op, rhs) for well quantities (operands in this order): %s" % etxt[-400:], ec["file"], ec["l"])
+    ew = one18("evalWellComparisons")
+    opn2, rhn2 = [p_["n"] for p_ in ew["params"]]
+    loops = [n for n in stmt_list(ew["body"]) if n["k"] == "ForRange" and show(strip(n["range"])) == "this.well_values_"]
+    okl = False
+    det = show(ew["body"])[:400]
+    if len(loops) == 1:
+        lb = stmt_list(loops[0]["body"])
+        lst = [v["n"] for n in stmt_list(ew["body"]) if n["k"] == "Decl" for v in n["vars"] if "vector" in (v.get("t") or "")]
+        bt = show(loops[0]["body"]).replace("Opm::Action::(anonymous namespace)::", "").replace("(anonymous namespace)::", "")
+        m = re.search(r"if \(scalarComparisonHolds\((\w+), %s, %s\)\) \{ (\w+)\.push_back\((\w+)\) \}" % (opn2, rhn2), bt)
+        rets = [show(x["e"]) for x in stmt_list(ew["body"]) if x["k"] == "Return"]
+        if m and len(lst) == 1 and m.group(2) == lst[0] and m.group(1) != m.group(3) and len(lb) == 1:
+            okl = rets == ["Opm::Action::Result{(!%s.empty())}.wells(%s)" % (lst[0], lst[0])] or rets == ["Result{(!%s.empty())}.wells(%s)" % (lst[0], lst[0])]
+            det = dict(loop=bt[:200], returns=rets)
+    chk.instance(r_wc, "evalWellComparisons", sample=dict(found=det))
+    if not okl:
+        chk.violation(r_wc, "evalWellComparisons", "Value::evalWellComparisons: every recorded (well, value) pair must be tested with scalarComparisonHolds(value, op, rhs), the well of a satisfying pair kept, and the result be Result{!list.empty()}.wells(list); found %s" % det, ew["file"], ew["l"])
+
     chk.assumptions += ["documented ACTIONX condition syntax (AND binds tighter than OR; .GT. style aliases) as frozen in rules/C18.py"]
